@@ -722,6 +722,15 @@ class FnItem:
             if len(blocks) != 1:
                 raise Undecided("%s: mod %r found %d times" % (rel, spec["mod"], len(blocks)))
             lo, hi = blocks[0][1] + 1, blocks[0][2]
+        if spec.get("inside_fn"):
+            # the item is declared inside the body of another function (a local impl): narrow the search to that body
+            oimpl, ofn = spec["inside_fn"]
+            outer = []
+            for b in src.find_blocks("impl", oimpl, lo, hi):
+                outer += src.find_fn(ofn, b[1] + 1, b[2])
+            if len(outer) != 1:
+                raise Undecided("%s: enclosing fn %s in impl /%s/ found %d times" % (rel, ofn, oimpl, len(outer)))
+            lo, hi = outer[0][2] + 1, outer[0][3]
         if spec.get("impl"):
             blocks = [b for b in src.find_blocks("impl", spec["impl"], lo, hi)]
             cands = []
@@ -842,7 +851,8 @@ class FnItem:
             expected = hits
         # R1 / R2 only remove or guard logging, R3/R3b/R6/R7/R14/R20 are the language's own desugarings: their site
         # counts are recorded, not pinned.  Pinned: rewrites that abstract something (R4 profile, R9 counters, clock ...)
-        strict = lambda d: {k: v for k, v in d.items() if k not in ("R1", "R2", "R3", "R3b", "R6", "R7", "R14", "R20", "R21", "R22")}
+        free = ("R1", "R2", "R3", "R3b", "R6", "R7", "R14", "R20", "R21", "R22") + tuple(sp.get("unpinned", ()))
+        strict = lambda d: {k: v for k, v in d.items() if k not in free}
         if strict(hits) != strict(expected):
             raise Undecided("%s::%s: rewrite sites changed: expected %r, found %r" % (self.rel, self.name, expected, hits))
         # signature: named return, drop pub(crate) noise is fine in verus
